@@ -27,6 +27,8 @@ type c14Case struct {
 	Fragment   bool   `json:"fragment,omitempty"`  // the applications submit fragments (offset 0 of 2000 bytes each): the ID then also carries offset and total length
 	SameTime   bool   `json:"same_time,omitempty"` // the second group carries the creation time of the first one (an application that stamps its bundles itself)
 	Preset     int    `json:"preset,omitempty"` // sequence numbers the application put into its bundles: 0 none (zero), 1 = 1,2,3,..., 2 = all 7
+	Third      int    `json:"third,omitempty"` // a third group of this size follows the second one and carries the creation time of the FIRST group again
+	Mixed      bool   `json:"mixed,omitempty"` // the second group uses the other kind of creation time (epoch <-> clock) than the first and third
 	AgeS       int    `json:"age_s,omitempty"` // the applications stamp their bundles with a creation time that lies this many seconds in the past (negative: in the future - a client whose clock runs ahead)
 	Gap        []int  `json:"gap,omitempty"` // bundles of the first group that reach the destination (and leave the store) before the restart: the stored sequence numbers get gaps
 }
@@ -109,14 +111,18 @@ func c14Body(c *vk.Ctx, cs c14Case) {
 	}
 	submitInner = func(group, n int) {
 		t := time.Now().Add(-time.Duration(cs.AgeS) * time.Second)
-		if group == 0 {
+		if group == 0 || group == 2 {
 			t = t0
 		} else if cs.SameTime {
 			t = t0
 		}
+		epoch := cs.Epoch
+		if group == 1 && cs.Mixed {
+			epoch = !epoch
+		}
 		var bs []bpv7.Bundle
 		for i := 0; i < n; i++ {
-			b, p := c14Bundle(i, group, t, cs.Epoch)
+			b, p := c14Bundle(i, group, t, epoch)
 			if cs.Fragment {
 				b.PrimaryBlock.BundleControlFlags |= bpv7.IsFragment
 				b.PrimaryBlock.FragmentOffset, b.PrimaryBlock.TotalDataLength = 0, 2000
@@ -130,7 +136,7 @@ func c14Body(c *vk.Ctx, cs c14Case) {
 			bs = append(bs, b)
 			submitted[string(p)] = true
 		}
-		s.logf("group %d: %d bundles, same source and creation time (epoch=%v) via %s", group, n, cs.Epoch, cs.Path)
+		s.logf("group %d: %d bundles, same source and creation time (epoch=%v) via %s", group, n, epoch, cs.Path)
 		switch cs.Path {
 		case "send":
 			for i := range bs {
@@ -176,7 +182,7 @@ func c14Body(c *vk.Ctx, cs c14Case) {
 			// clock-less bundles a collision is only judged within one incarnation of the node.
 			// (the same holds for an application that stamps bundles with a creation time it used before the restart)
 			key := x.ID
-			if cs.Epoch || cs.SameTime {
+			if cs.Epoch || cs.SameTime || cs.Third > 0 || cs.Mixed {
 				key = fmt.Sprintf("%s@incarnation%d", x.ID, x.Gen)
 			}
 			if p, ok := payOf[key]; ok && p != string(pay) {
@@ -264,6 +270,11 @@ func c14Body(c *vk.Ctx, cs c14Case) {
 		submit(1, cs.Second)
 		check("after the second group")
 	}
+	if cs.Third > 0 {
+		submit(2, cs.Third)
+		check("after the third group (the first group's creation time again)")
+		c.Class("a creation time used again after another one")
+	}
 	s.tickPending()
 	s.logf("pending tick")
 	check("after a retry tick")
@@ -305,14 +316,15 @@ func c14Body(c *vk.Ctx, cs c14Case) {
 
 func TestVerifC14Groups(t *testing.T) {
 	u := vk.Unit{Property: "C14", Name: "c14.groups", Quick: 360, Thorough: 5000,
-		Rule: "groups of 2..6 distinct bundles (whole bundles, or fragments with one offset and total length) with identical source and creation time (same millisecond - now, 100 s or 50 min ago, or 10 min ahead of the node's clock, as stamped by the application - or epoch time + age block; sequence numbers as the builder leaves them, or pre-set by the application to 1,2,3,... or all to 7) submitted sequentially through Core.SendBundle, through an application agent and the agent manager, or concurrently from 2..6 goroutines; with no peer, another peer, or the destination peer connected; optionally the destination is connected for a moment so that some bundles of the group leave the store (stored sequence numbers with gaps); followed by an optional restart, a second group (with a creation time of its own or with the first group's), a retry tick and the appearance of the destination; oracle on the bytes seen by the scripted peers and on the store after every step: distinct payloads <=> distinct IDs, one ID per payload for ever, every bundle not yet handed to its destination is filed as pending and loads its own payload under the ID it was transmitted with, finally every bundle reaches the destination; non-trivial = group of >= 2 that had to wait in the store; distinct by case hash"}
+		Rule: "groups of 2..6 distinct bundles (whole bundles, or fragments with one offset and total length) with identical source and creation time (same millisecond - now, 100 s or 50 min ago, or 10 min ahead of the node's clock, as stamped by the application - or epoch time + age block; sequence numbers as the builder leaves them, or pre-set by the application to 1,2,3,... or all to 7) submitted sequentially through Core.SendBundle, through an application agent and the agent manager, or concurrently from 2..6 goroutines; with no peer, another peer, or the destination peer connected; optionally the destination is connected for a moment so that some bundles of the group leave the store (stored sequence numbers with gaps); followed by an optional restart, a second group (with a creation time of its own or with the first group's; optionally of the other kind, epoch <-> clock), optionally a third group with the first group's creation time again, a retry tick and the appearance of the destination; oracle on the bytes seen by the scripted peers and on the store after every step: distinct payloads <=> distinct IDs, one ID per payload for ever, every bundle not yet handed to its destination is filed as pending and loads its own payload under the ID it was transmitted with, finally every bundle reaches the destination; non-trivial = group of >= 2 that had to wait in the store; distinct by case hash"}
 	vk.Check(t, u, func(t *rapid.T) c14Case {
 		return c14Case{Algo: rapid.SampledFrom([]string{"epidemic", "epidemic", "spray", "prophet"}).Draw(t, "algo"), N: rapid.IntRange(2, 6).Draw(t, "n"),
 			Epoch: rapid.IntRange(0, 2).Draw(t, "epoch") == 0, Path: rapid.SampledFrom([]string{"send", "send", "agent", "concurrent"}).Draw(t, "path"),
 			DestFirst: rapid.IntRange(0, 3).Draw(t, "destfirst") == 0, OtherFirst: rapid.Bool().Draw(t, "otherfirst"),
 			Restart: rapid.IntRange(0, 2).Draw(t, "restart") == 0, Second: rapid.SampledFrom([]int{0, 0, 1, 3}).Draw(t, "second"),
 			Gap: rapid.SliceOfN(rapid.IntRange(0, 5), 0, 2).Draw(t, "gap"), Preset: rapid.SampledFrom([]int{0, 0, 1, 2}).Draw(t, "preset"), SameTime: rapid.Bool().Draw(t, "sametime"), Fragment: rapid.IntRange(0, 3).Draw(t, "fragment") == 0,
-			AgeS: rapid.SampledFrom([]int{0, 0, 0, 0, 100, 3000, -600}).Draw(t, "age")}
+			AgeS: rapid.SampledFrom([]int{0, 0, 0, 0, 100, 3000, -600}).Draw(t, "age"),
+			Third: rapid.SampledFrom([]int{0, 0, 1, 2}).Draw(t, "third"), Mixed: rapid.IntRange(0, 2).Draw(t, "mixed") == 0}
 	}, c14Body)
 }
 
